@@ -27,7 +27,7 @@ def base_diagram():
             {'kl': 'S', 'name': 'Super', 'comp': 'C1', 'attrs': [A('Id', 'base', 'unique_id'), A('D', 'derived', 'string')],
              'ids': [['Id'], ['D']]},
             {'kl': 'T', 'name': 'SubT', 'comp': 'C1', 'attrs': [A('Id', 'ref'), A('X', 'base', 'integer')], 'ids': [['Id']]},
-            {'kl': 'U', 'name': 'SubU', 'comp': 'C1', 'attrs': [A('Id', 'ref')], 'ids': [['Id']]},
+            {'kl': 'U', 'name': 'SubU', 'comp': 'C1', 'attrs': [A('Super_Id', 'ref'), A('Y', 'base', 'string')], 'ids': [['Super_Id']]},
             {'kl': 'X', 'name': 'Xeno', 'comp': 'C2', 'attrs': [A('Id', 'base', 'unique_id'), A('V', 'base', 'Other_Real'),
                                                                A('P_Id', 'ref')], 'ids': [['Id']]},
             {'kl': 'G', 'name': 'Glob', 'comp': 'C1', 'attrs': [A('Id', 'base', 'unique_id'), A('T_Id', 'ref')], 'ids': [['Id']]},
@@ -39,7 +39,7 @@ def base_diagram():
              'fph': 'succeeds', 'pph': 'precedes', 'keys': [['Prev_Id', 'Id']]},
             {'k': 'linked', 'num': 3, 'comp': 'C1', 'one': 'A', 'oth': 'B', 'link': 'L', 'om': 0, 'oc': 1, 'oph': 'a side',
              'tm': 1, 'tc': 0, 'tph': 'b side', 'okeys': [['A_Id', 'Id']], 'tkeys': [['B_Id', 'Id']]},
-            {'k': 'subsup', 'num': 4, 'comp': 'C1', 'sup': 'S', 'subs': ['T', 'U'], 'keys': {'T': [['Id', 'Id']], 'U': [['Id', 'Id']]}},
+            {'k': 'subsup', 'num': 4, 'comp': 'C1', 'sup': 'S', 'subs': ['T', 'U'], 'keys': {'T': [['Id', 'Id']], 'U': [['Super_Id', 'Id']]}},
             {'k': 'simple', 'num': 5, 'comp': 'C2', 'form': 'X', 'part': 'X', 'fm': 1, 'fc': 1, 'pm': 0, 'pc': 1,
              'fph': 'child of', 'pph': 'parent of', 'keys': [['P_Id', 'Id']]},
             {'k': 'simple', 'num': 6, 'comp': 'C1', 'form': 'G', 'part': 'T', 'fm': 1, 'fc': 0, 'pm': 0, 'pc': 1,
